@@ -17,10 +17,12 @@ import (
 	"net"
 	"os"
 	"runtime"
+	"runtime/debug"
 	"runtime/pprof"
 	"strings"
 	"sync"
 	"sync/atomic"
+	"syscall"
 	"time"
 
 	"github.com/Jigsaw-Code/outline-sdk/transport"
@@ -52,6 +54,39 @@ type c18Report struct {
 	NatEntriesAdded int64    `json:"nat_entries_added"`
 	NatEntriesGone  int64    `json:"nat_entries_removed"`
 	Done            bool     `json:"done"`
+	OpenFds         []string `json:"open_descriptors,omitempty"` // what is still open when more descriptors are open at the end than at the start
+}
+
+// describeFds lists the open descriptors; sockets with their protocol and local address
+func describeFds() []string {
+	inode := map[string]string{}
+	for _, f := range []string{"tcp", "tcp6", "udp", "udp6"} {
+		b, err := os.ReadFile("/proc/self/net/" + f)
+		if err != nil {
+			continue
+		}
+		for _, ln := range strings.Split(string(b), "\n")[1:] {
+			fs := strings.Fields(ln)
+			if len(fs) > 9 {
+				inode[fs[9]] = f + " local=" + fs[1] + " remote=" + fs[2] + " st=" + fs[3]
+			}
+		}
+	}
+	var out []string
+	es, _ := os.ReadDir("/proc/self/fd")
+	for _, e := range es {
+		l, err := os.Readlink("/proc/self/fd/" + e.Name())
+		if err != nil {
+			continue
+		}
+		if strings.HasPrefix(l, "socket:[") {
+			if d, ok := inode[strings.TrimSuffix(strings.TrimPrefix(l, "socket:["), "]")]; ok {
+				l += " " + d
+			}
+		}
+		out = append(out, e.Name()+" -> "+l)
+	}
+	return out
 }
 
 type logCapture struct {
@@ -87,12 +122,20 @@ func (c *c18UDPConn) AddPacketFromClient(string, int64, int64) {}
 func (c *c18UDPConn) AddPacketFromTarget(string, int64, int64) {}
 func (c *c18UDPConn) RemoveNatEntry()                          { atomic.AddInt64(&c.m.removed, 1) }
 
+// countFds counts the open SOCKETS of this process (the Go runtime keeps a pool of pipes for
+// splice between TCP connections, released only by the garbage collector: not the server's)
 func countFds() int {
 	es, err := os.ReadDir("/proc/self/fd")
 	if err != nil {
 		return -1
 	}
-	return len(es)
+	n := 0
+	for _, e := range es {
+		if l, err := os.Readlink("/proc/self/fd/" + e.Name()); err == nil && strings.HasPrefix(l, "socket:[") {
+			n++
+		}
+	}
+	return n
 }
 
 // malformed / boundary SOCKS address forms, as authenticated plaintext
@@ -164,7 +207,9 @@ func c18child(args []string) {
 		}
 		rep.InputKinds = append(rep.InputKinds, kind)
 	}
-	runtime.GC()
+	// no garbage collection in this process: a socket the server forgot to close must stay open
+	// and be counted, not be closed behind our back by a finalizer
+	debug.SetGCPercent(-1)
 	time.Sleep(20 * time.Millisecond)
 	rep.Gor0 = runtime.NumGoroutine()
 	rep.Fd0 = countFds()
@@ -459,6 +504,32 @@ func c18child(args []string) {
 		}
 		atomic.StoreInt32(&tmode, 0)
 		checkCanaries("after raw input and hostile targets")
+		// descriptor exhaustion: connections arrive while the process cannot open another
+		// descriptor, so accept itself fails (EMFILE) for a while; afterwards the listener must
+		// still be serving
+		var lim syscall.Rlimit
+		if syscall.Getrlimit(syscall.RLIMIT_NOFILE, &lim) == nil {
+			old := lim
+			if es, err := os.ReadDir("/proc/self/fd"); err == nil {
+				lim.Cur = uint64(len(es) + 5)
+				if syscall.Setrlimit(syscall.RLIMIT_NOFILE, &lim) == nil {
+					note("tcp/accept-error/descriptor-exhaustion")
+					var hold []net.Conn
+					for i := 0; i < 16; i++ {
+						if c, err := net.DialTimeout("tcp", saddr, 300*time.Millisecond); err == nil {
+							hold = append(hold, c)
+						}
+					}
+					time.Sleep(150 * time.Millisecond)
+					for _, c := range hold {
+						c.Close()
+					}
+					syscall.Setrlimit(syscall.RLIMIT_NOFILE, &old)
+					time.Sleep(100 * time.Millisecond)
+					checkCanaries("after descriptor exhaustion")
+				}
+			}
+		}
 	}
 
 	// ---- UDP barrage ----
@@ -559,7 +630,6 @@ func c18child(args []string) {
 	// everything the server created must be gone
 	deadline := time.Now().Add(6 * time.Second)
 	for {
-		runtime.GC()
 		rep.Gor1, rep.Fd1 = runtime.NumGoroutine(), countFds()
 		if (rep.Gor1 <= rep.Gor0 && rep.Fd1 <= rep.Fd0) || time.Now().After(deadline) {
 			break
@@ -578,6 +648,9 @@ func c18child(args []string) {
 				rep.Leftover = append(rep.Leftover, strings.Join(lines, " | "))
 			}
 		}
+	}
+	if rep.Fd1 > rep.Fd0 {
+		rep.OpenFds = describeFds()
 	}
 	rep.NatEntriesAdded, rep.NatEntriesGone = atomic.LoadInt64(&um.added), atomic.LoadInt64(&um.removed)
 	lc.mu.Lock()
